@@ -348,11 +348,14 @@ func body(w *run.Worker) {
 			dd := sim.NewDurableDir(media.J, media.DirInit)
 			cross := 0
 			s.Alloc.Observer = func(id, off int64) {
+				k1 := media.J.Len()
 				b, ok := dd.File("state")
-				if cross < 4 && id%3 == 0 {
-					// cross-check the incremental tracker against the batch image
+				if k2 := media.J.Len(); cross < 4 && id%3 == 0 && k1 == k2 {
+					// cross-check the incremental tracker against the batch
+					// image (only when the syncer goroutines did not append to
+					// the journal in between)
 					cross++
-					ref, rok := sim.DirImageAt(media.J, media.DirInit, media.J.Len(), sim.DirChoice{})["state"]
+					ref, rok := sim.DirImageAt(media.J, media.DirInit, k1, sim.DirChoice{})["state"]
 					if rok != ok || string(ref) != string(b) {
 						w.Inconclusive("harness bug: incremental durable-directory tracker disagrees with DirImageAt")
 					}
@@ -904,9 +907,10 @@ func sortStrings(s []string) []string {
 // identifyHeld finds the block a just-opened reader pins: the block whose use
 // count exceeds what the harness already accounts for.
 func (e *env) identifyHeld(h *held) {
-	if e.cfg.Persistent {
-		run.Settle(20 * time.Second)
-	}
+	// A background refresh started by the Get may still be copying (it holds
+	// a writer reference on the target block until it is done): let it run
+	// to completion or to a point where it is parked before counting.
+	run.Settle(20 * time.Second)
 	e.s.Lock.Lock()
 	defer e.s.Lock.Unlock()
 	for _, bw := range e.s.Alloc.Blocks() {
